@@ -258,7 +258,132 @@ def r3(ctx):
         raise AnalysisBroken('C13.R3: assignment to m_message not found')
 
 
+def r4(ctx):
+    ctx.rule('C13.R4', 'splitValues turns a comparison into the inclusive from-to pair the matcher tests with <= on both '
+             'sides: "<N" ends at N-1, ">N" starts at N+1, "<=N"/">=N" use N itself (decided for the four combinations of '
+             'the two flags on every path from the parsed number to the stored bound)', minimum=4)
+    fb = ctx.fb
+    fn = [f for f in fb.fns('ebusd::splitValues') if 'unsigned int' in f.sig]
+    if len(fn) != 1:
+        raise AnalysisBroken('C13.R4: splitValues(valueList, ranges) not found')
+    fn = fn[0]
+    ctx.touch(fn)
+    from facts import Explorer
+    uptos = fn.local_where(lambda k, r: k.endswith('[#0] == #60)'))
+    incls = fn.local_where(lambda k, r: k.endswith('[#1] == #61)'))
+    if len(uptos) != 1 or len(incls) != 1:
+        raise AnalysisBroken('C13.R4: the "<" / "=" flags of splitValues not recognised (%s, %s)' % (uptos, incls))
+    upto, incl = uptos[0], incls[0]
+    # the parsed number in the comparison branch: local initialised from parseInt under the atom (upto || '>')
+    vdecl = None
+    for nid, d, rhs, op, lhs in fn.assignments():
+        if op == 'init' and rhs is not None and 'parseInt(' in fn.key(rhs) and incl in fn.key(rhs):
+            vdecl, vnode = d, nid
+    if vdecl is None:
+        raise AnalysisBroken('C13.R4: parsed bound of a comparison not recognised')
+    val = vdecl.split(':')[-1]
+    pushes = [c for c in fn.all('CXXMemberCallExpr') if (fn.nodes[c].get('callee') or '').endswith('::push_back') and
+              fn.nodes[c].get('args') and any(fn.nodes[x].get('k') == 'DeclRefExpr' and fn.nodes[x].get('decl') == vdecl
+                                              for x in fn.walk(fn.nodes[c]['args'][0]))]
+    if not pushes:
+        raise AnalysisBroken('C13.R4: store of the parsed bound not found')
+
+    def ev(x, st):
+        """value of expression x relative to the parsed number: ('v', delta) | ('c', const) | None"""
+        x = fn.strip(x, casts=True)
+        v = fn.nodes[x]
+        if fn.val(x) is not None:
+            return ('c', fn.val(x))
+        if v['k'] == 'DeclRefExpr':
+            if v.get('decl') == vdecl:
+                return ('v', st[2])
+            if v.get('name') == upto and st[0] is not None:
+                return ('c', 1 if st[0] else 0)
+            if v.get('name') == incl and st[1] is not None:
+                return ('c', 1 if st[1] else 0)
+            return None
+        if v['k'] == 'ConditionalOperator':
+            c = ev(v['cond'], st)
+            if c is None or c[0] != 'c':
+                return None
+            return ev(v['then'] if c[1] else v['else'], st)
+        if v['k'] == 'UnaryOperator' and v.get('op') == '!':
+            c = ev(v['ch'][0], st)
+            return ('c', 0 if c[1] else 1) if c and c[0] == 'c' else None
+        if v['k'] == 'UnaryOperator' and v.get('op') == '-':
+            c = ev(v['ch'][0], st)
+            return ('c', -c[1]) if c and c[0] == 'c' else None
+        if v['k'] == 'BinaryOperator' and v.get('op') in ('+', '-'):
+            a, b = ev(v['lhs'], st), ev(v['rhs'], st)
+            if a is None or b is None:
+                return None
+            sg = 1 if v['op'] == '+' else -1
+            if a[0] == 'v' and b[0] == 'c':
+                return ('v', a[1] + sg * b[1])
+            if a[0] == 'c' and b[0] == 'c':
+                return ('c', a[1] + sg * b[1])
+            if a[0] == 'c' and b[0] == 'v' and sg == 1:
+                return ('v', a[1] + b[1])
+        return None
+    results = {}
+
+    def on_elem(user, e, path):
+        u, i, dlt, live = user
+        v = fn.nodes[e]
+        if e == vnode or (v['k'] == 'DeclStmt' and any(dd['decl'] == vdecl for dd in v.get('decls', []))):
+            return (u, i, 0, True)
+        if not live:
+            return user
+        if v['k'] == 'UnaryOperator' and v.get('op') in ('++', '--') and fn.ref_decl(v['ch'][0]) == vdecl:
+            return (u, i, dlt + (1 if v['op'] == '++' else -1), True)
+        if v['k'] == 'CompoundAssignOperator' and fn.ref_decl(v['lhs']) == vdecl and fn.val(v['rhs']) is not None and v.get('op') in ('+=', '-='):
+            return (u, i, dlt + (fn.val(v['rhs']) if v['op'] == '+=' else -fn.val(v['rhs'])), True)
+        if v['k'] == 'BinaryOperator' and v.get('op') == '=' and fn.ref_decl(v['lhs']) == vdecl:
+            r = ev(v['rhs'], (u, i, dlt))
+            return (u, i, r[1], True) if r and r[0] == 'v' else (u, i, None, True)
+        if e in pushes:
+            r = ev(v['args'][0], (u, i, dlt)) if dlt is not None else None
+            results.setdefault((u, i), set()).add(r[1] if r and r[0] == 'v' else None)
+            return (u, i, dlt, False)
+        return user
+
+    def on_edge(user, b, j, dnf):
+        u, i, dlt, live = user
+        if len(dnf) == 1:
+            for a in dnf[0]:
+                k, p = facts.atom_key(fn, a)
+                if k == upto:
+                    if u is not None and u != p:
+                        return None
+                    u = p
+                if k == incl:
+                    if i is not None and i != p:
+                        return None
+                    i = p
+        return (u, i, dlt, live)
+
+    for u0 in (True, False):
+        for i0 in (True, False):
+            ex = Explorer(fn, on_elem=on_elem, on_edge=on_edge)
+            ex.run(fn.block_of(vnode), 0, (u0, i0, None, False))
+    for u0 in (True, False):
+        for i0 in (True, False):
+            want = 0 if i0 else (-1 if u0 else 1)
+            got = results.get((u0, i0), set())
+            what = '%s%sN' % ('<' if u0 else '>', '=' if i0 else '')
+            ctx.ob('C13.R4', fn, pushes[0], got == {want}, 'bound stored for "%s"' % what,
+                   'stores N%+d on the explored paths: %s (the inclusive pair needs N%+d)' % (
+                       sorted(got, key=str)[0] if len(got) == 1 and None not in got else 0, sorted(got, key=str), want))
+    # the matcher is inclusive on both sides
+    mt = fb.fn('ebusd::SimpleNumericCondition::checkValue') if fb.fns('ebusd::SimpleNumericCondition::checkValue') else None
+    if mt is not None:
+        ks = [mt.key(x) for x in mt.all('BinaryOperator') if mt.nodes[x].get('op') in ('<', '<=', '>', '>=')]
+        ok = sum(1 for k in ks if 'm_valueRanges[' in k and '<=' in k) >= 2
+        ctx.ob('C13.R4', mt, mt.body, ok, 'matcher compares inclusively', '%s' % ks[:4])
+
+
 def run(ctx):
     r1(ctx)
     r2(ctx)
     r3(ctx)
+    r4(ctx)
